@@ -999,6 +999,15 @@ def gen_plan(family: str, i: int, rng: random.Random, tier: str) -> dict:
     plan = {"transport": transport, "max_packet": mp, "knobs": knobs, "ops": ops, "faults": []}
     if family == "control":
         return plan
+    if family == "refused":
+        # the device answers one call with an error status (a healthy link otherwise); the session goes on
+        first = gen_op(rng, mp, transport, cap)
+        if rng.random() < 0.3:
+            first = {"op": "reset"}
+        plan["ops"] = [first] + [gen_op(rng, mp, transport, cap) for _ in range(rng.randint(1, 3))]
+        plan["knobs"]["cmd_exception"] = rng.random() < 0.15
+        plan["faults"] = [{"op": 0, "kind": "dev_err", "cmd": 0, "when": rng.choice(["initial", "initial", "final"]), "status": rng.choice(STATUSES)}]
+        return plan
     if family == "lastpkt":
         # the device refuses exactly the last data packet of a data phase (abort, NAK or abort frame for its ACK): the
         # call must not count that packet as delivered
@@ -1069,8 +1078,8 @@ def warm_up() -> None:
 
 def families(tier: str):
     if tier == "quick":
-        return [("control", 1500), ("faulty", 4000), ("extra", 300), ("sweep", 80), ("lastpkt", 300), ("props", 200), ("sdp_control", 600), ("sdp_faulty", 1200), ("sdps", 150)]
-    return [("control", 40000), ("faulty", 110000), ("extra", 8000), ("sweep", 1500), ("lastpkt", 8000), ("props", 5000), ("sdp_control", 15000), ("sdp_faulty", 40000), ("sdps", 2000)]
+        return [("control", 1500), ("faulty", 4000), ("extra", 300), ("sweep", 80), ("lastpkt", 300), ("refused", 300), ("props", 200), ("sdp_control", 600), ("sdp_faulty", 1200), ("sdps", 150)]
+    return [("control", 40000), ("faulty", 110000), ("extra", 8000), ("sweep", 1500), ("lastpkt", 8000), ("refused", 8000), ("props", 5000), ("sdp_control", 15000), ("sdp_faulty", 40000), ("sdps", 2000)]
 
 
 def reductions(plan: dict):
